@@ -34,13 +34,32 @@ PREAMBLE = ("From H2V Require Import Base.Tac Base.Bytes Gen.FrameConsts Ref.Rfc
             "Definition both_write c := check_write c && oracle_write c.")
 CORPUS = os.path.join(common.VERIF, "corpus", "framecodec")
 
-# documented single-frame differences between h2 and the RFC grammar (FrameCodec.v `deviation`);
-# the oracle reports them as KNOWN findings, never as violations of C12
-KNOWN = {
-    1: "C12 PUSH_PROMISE with an empty field block fragment is refused (PushPromise::load `src.len() < 5`), RFC 9113 6.6 allows it",
-    2: "C12 GOAWAY with a non-zero stream identifier is accepted (GoAway::load ignores the head), RFC 9113 6.8 says PROTOCOL_ERROR",
-    3: "C12 RST_STREAM on stream 0 passes the codec (refused later by streams.rs recv_reset)",
-}
+THEOREMS = [
+    "C12_roundtrip", "C12_roundtrip_stream", "C12_roundtrip_reader", "C12_parse_agrees_with_rfc",
+    "C12_codec_boundary_only_defers", "C12_continuation_stream_zero_refused",
+    "C12_parse_never_panics", "C12_load_never_panics", "C12_reader_never_panics",
+    "C12_read_chunking", "C12_read_chunking_init", "C12_write_no_dup_drop", "C12_write_prefix",
+    "C12_write_complete", "C12_write_zero", "C12_send_limit", "C12_send_limit_data_enforced",
+    "C12_recv_limit", "C12_recv_dead_silent", "C12_malformed_block_never_delivered",
+]
+
+PARTIAL = [
+    "layering: RST_STREAM on stream 0 (RFC 9113 6.4) and CONTINUATION on stream 0 (6.10) are not refused by the frame "
+    "loader itself; the codec hands RST_STREAM(0) up unchanged and proto/streams/streams.rs recv_reset answers "
+    "PROTOCOL_ERROR (outside this model), CONTINUATION(0) is refused by decode_frame's CONTINUATION book-keeping "
+    "(theorem C12_continuation_stream_zero_refused).  The reference used for the comparison is the grammar at the "
+    "codec boundary (Ref/Rfc9113Frame.v rfc_parse_frame_codec); C12_codec_boundary_only_defers shows it differs from "
+    "the plain grammar in exactly these two refusals.  Not a defect of the endpoint.",
+    "error codes: h2 answers every malformed frame with PROTOCOL_ERROR where RFC 9113 names FRAME_SIZE_ERROR for wrong "
+    "fixed lengths (PING, RST_STREAM, PRIORITY, WINDOW_UPDATE, SETTINGS); the property names FRAME_SIZE_ERROR only for "
+    "frames above the size limit, which is proved and checked exactly (C12_recv_limit, oracle_read).",
+    "HPACK is a parameter of the reader model; the correspondence instantiates it with the literal-field fragment the "
+    "harness generates (hp_lit); the full decoder is the subject of C11.",
+    "GOAWAY debug data are not checked against the peer's max frame size by the encoder (frame_wf precondition "
+    "8 + debug <= max); h2 only ever sends short static strings.",
+    "write-buffer capacity (bytes::BytesMut growth) is modelled after the bytes crate, not h2; it decides has_capacity "
+    "only, never the octets written (C12_write_no_dup_drop holds for every capacity).",
+]
 
 
 # ----------------------------------------------------------------------------------------------
@@ -405,8 +424,11 @@ def correspond_framecodec(rep, tier, seed):
         rep.violation("broken-correspondence", {"what": "more than 5% of the cases fall outside the modelled HPACK fragment",
                                                 "out_of_model": len(out_of_model)}, no_input=True)
     rep.samples.extend(case_brief(c) for c in cases[ncorpus:ncorpus + 3])
+    rep.partial.extend(p for p in PARTIAL if p not in rep.partial)
     if failing:
         classify(rep, [cases[i] for i in failing[:6]], "model and implementation disagree")
+    # the reference oracle on the same cases (already evaluated in the combined pass)
+    search_framecodec(rep, tier, seed, cases=cases)
     return cases
 
 
@@ -440,29 +462,6 @@ def report_violation(rep, c):
     rep.violation("failing-input", payload)
 
 
-def py_deviations(c):
-    """Which documented single-frame deviations occur in the octets of a read case (informational tagging;
-    the decision whether something is a violation is taken by the Coq oracle, which knows them too)."""
-    out, bs, i = set(), c["bytes"], 0
-    while i + 9 <= len(bs):
-        ln = (bs[i] << 16) | (bs[i + 1] << 8) | bs[i + 2]
-        if ln > c["max_frame"] or i + 9 + ln > len(bs):
-            break
-        ty, fl = bs[i + 3], bs[i + 4]
-        sid = ((bs[i + 5] & 0x7f) << 24) | (bs[i + 6] << 16) | (bs[i + 7] << 8) | bs[i + 8]
-        p = bs[i + 9:i + 9 + ln]
-        if ty == 5 and sid != 0:
-            padded = bool(fl & 8)
-            if ln == (5 if padded else 4) and (not padded or p[0] == 0):
-                out.add(1)
-        if ty == 7 and sid != 0 and ln >= 8:
-            out.add(2)
-        if ty == 3 and sid == 0 and ln == 4:
-            out.add(3)
-        i += 9 + ln
-    return out
-
-
 def search_framecodec(rep, tier, seed, cases=None):
     """Oracle = reference parser / serialiser evaluated in Coq on the implementation's input/output:
        read side : every event the implementation produced agrees with the RFC grammar applied to the same octets
@@ -493,18 +492,9 @@ def search_framecodec(rep, tier, seed, cases=None):
         for i in idx[1:]:
             if json.dumps([cases[i]["events"], cases[i]["eof_io"]], sort_keys=True) != ref:
                 chunk_bad.append(i)
-    # documented deviations are known findings, not violations
-    known = {}
-    for c in cases:
-        if c["mode"] in READ_MODES:
-            for code in py_deviations(c):
-                known[code] = known.get(code, 0) + 1
-    for code in sorted(known):
-        rep.known(KNOWN[code])
     rep.oracle_runs.append({"name": "framecodec-reference-oracle", "cases": len(cases),
                             "nontrivial": sum(1 for c in cases if is_nontrivial(c)),
-                            "failures": len(bad) + len(chunk_bad), "known_deviation_hits": known,
-                            "chunk_groups": len(groups)})
+                            "failures": len(bad) + len(chunk_bad), "chunk_groups": len(groups)})
     for i in sorted(bad)[:5]:
         report_violation(rep, cases[i])
     for i in chunk_bad[:3]:
@@ -520,13 +510,12 @@ if __name__ == "__main__":
     seed = sys.argv[2] if len(sys.argv) > 2 else "1"
     t0 = time.time()
     rep = common.Report("C12", tier, seed)
-    correspond_framecodec(rep, tier, seed)
+    correspond_framecodec(rep, tier, seed)        # includes the oracle on the same cases
     t1 = time.time()
-    nbad = search_framecodec(rep, tier, seed)
     t2 = time.time()
     c = rep.correspondences[0]
     print(json.dumps({"cases": c["cases"], "nontrivial": c["nontrivial"], "disagreements": c["disagreements"],
-                      "by_mode": c["by_mode"], "oracle": rep.oracle_runs, "known": rep.known_hits,
+                      "by_mode": c["by_mode"], "oracle": rep.oracle_runs, "known": rep.known_hits, "partial": len(rep.partial),
                       "violations": [p for p, _ in rep.violations],
                       "t_correspond": round(t1 - t0, 1), "t_search": round(t2 - t1, 1)}, indent=1))
     sys.exit(1 if (c["disagreements"] or rep.violations) else 0)
